@@ -35,7 +35,7 @@ SignedView(e, sealed) ==
   \*  sealing codec and at least one link the invalid-UTF-8 collapse of the JSON text is not reachable)
   [payload |-> IF sealed /\ (Links(e.next, sealed) # <<>> \/ Links(e.refs, sealed) # <<>>) THEN e.payload ELSE SignedPayload(e.payload),
    id |-> e.id, next |-> Links(e.next, sealed), refs |-> Links(e.refs, sealed),
-   v |-> e.v, cid |-> e.cid, ct |-> e.ct, ctb |-> e.ctb]
+   v |-> e.v, cid |-> e.cid, ct |-> e.ct, ctb |-> e.ctb, penc |-> e.penc]
 \* repeating a member changes neither the membership nor the order of a link list
 SameLinks(e, e2) == Dedup(e.next) = Dedup(e2.next) /\ Dedup(e.refs) = Dedup(e2.refs)
 
